@@ -8,6 +8,9 @@
 //!        M = Lean `expandAll (flatten t)`. The `R` variants redefine `\else \fi \or \iftrue
 //!        \ifcase` as ordinary macros after `\let`-aliasing them: conditionals then only exist
 //!        under alias names and the original names are "other" tokens.
+//!   `condS <Text>`  the same with scoped alias histories: plain codes >= 1000 are operations
+//!        "name j := meaning m, local/global" (executed only in selected text), codes >= 2000 are
+//!        sprinkled names, alias flag 4 = written through a name that currently has the meaning.
 //!   `tok <flat tokens>` / `tokR …`  any token list (not necessarily well nested): I vs M only
 //!        (output, error class, exact branch stack).
 //!   `xa <macros> <height> <stream>` a stream with `\expandafter` chains, aliases of it,
@@ -402,61 +405,272 @@ fn set_reg(reg: i64, n: i64, s: &mut String) {
     }
 }
 
+// ------------------------------------------------------------------------------------------
+// Scoped alias histories (`condS`): names whose conditional tag class changes over time
+// ------------------------------------------------------------------------------------------
+
+const DYN_BASE: i64 = 1000;
+const DYN_SPRINKLE: i64 = 2000;
+const PRIMS: [&str; 8] = ["iftrue", "iffalse", "ifodd", "ifnum", "ifcase", "else", "or", "fi"];
+const M_MACRO: i64 = 8;
+const M_RELAX: i64 = 9;
+/// The names that are reassigned: three control sequences, two active characters and five of the
+/// primitive names themselves; (source, meaning before any assignment).
+const DYN: [(&str, i64); 10] = [
+    ("\\da", M_RELAX),
+    ("\\db", M_RELAX),
+    ("\\dc", M_RELAX),
+    ("'", M_RELAX),
+    ("\"", M_RELAX),
+    ("\\else", 5),
+    ("\\fi", 7),
+    ("\\or", 6),
+    ("\\iftrue", 0),
+    ("\\ifodd", 2),
+];
+const DYN_PREAMBLE: &str = "\\let\\da=\\relax \\let\\db=\\relax \\let\\dc=\\relax \\catcode`\\'=13 \\let'=\\relax \\catcode`\\\"=13 \\let\"=\\relax ";
+
+/// Plain code of the operation "give name `j` meaning `m`" (`m` < 8: `\let` to that primitive,
+/// 8: `\def` as an empty macro, 9: `\let` to `\relax`), local or `\global`.
+fn dyn_op(j: i64, m: i64, global: bool) -> i64 {
+    DYN_BASE + ((j * 10 + m) * 2 + global as i64)
+}
+fn dyn_dec(code: i64) -> (usize, i64, bool) {
+    let x = code - DYN_BASE;
+    (((x / 20) % 10) as usize, (x / 2) % 10, x % 2 == 1)
+}
+
+/// The meaning of every dynamic name at the current point of the *executed* text, with TeX's
+/// grouping: local assignments are undone at the end of the group, global ones are not.
+struct DynState {
+    cur: [i64; 10],
+    ever_class: [bool; 10],
+    saves: Vec<Vec<(usize, i64)>>,
+}
+impl DynState {
+    fn new() -> Self {
+        let mut cur = [0; 10];
+        for (j, (_, m)) in DYN.iter().enumerate() {
+            cur[j] = *m;
+        }
+        DynState { cur, ever_class: [false; 10], saves: vec![] }
+    }
+    fn assign(&mut self, j: usize, m: i64, global: bool) {
+        if self.cur[j] < 8 {
+            self.ever_class[j] = true;
+        }
+        if global {
+            for lvl in self.saves.iter_mut() {
+                lvl.retain(|(i, _)| *i != j);
+            }
+        } else if let Some(top) = self.saves.last_mut() {
+            if !top.iter().any(|(i, _)| *i == j) {
+                top.push((j, self.cur[j]));
+            }
+        }
+        self.cur[j] = m;
+        if m < 8 {
+            self.ever_class[j] = true;
+        }
+    }
+    fn begin(&mut self) {
+        self.saves.push(vec![]);
+    }
+    fn end(&mut self) {
+        if let Some(lvl) = self.saves.pop() {
+            for (j, old) in lvl.into_iter().rev() {
+                self.cur[j] = old;
+            }
+        }
+    }
+    fn name_src(j: usize) -> String {
+        let n = DYN[j].0;
+        if n.starts_with('\\') {
+            format!("{n} ")
+        } else {
+            n.to_string()
+        }
+    }
+}
+
+/// For every token of `flatten(items)`, in the same order: is it in text the specification
+/// delivers (executed by the main loop) or in skipped text?
+fn flatten_status(items: &[Item], delivered: bool, out: &mut Vec<bool>) {
+    for it in items {
+        match it {
+            Item::Plain(_) => out.push(delivered),
+            Item::IfThen(t, a, _) => {
+                out.push(delivered);
+                flatten_status(a, delivered && test_holds(t), out);
+                out.push(delivered);
+            }
+            Item::IfElse(t, a, _, b, _) => {
+                out.push(delivered);
+                flatten_status(a, delivered && test_holds(t), out);
+                out.push(delivered);
+                flatten_status(b, delivered && !test_holds(t), out);
+                out.push(delivered);
+            }
+            Item::Case(t, brs, els, _) => {
+                out.push(delivered);
+                let n = t.ops[0];
+                for (i, (b, _)) in brs.iter().enumerate() {
+                    flatten_status(b, delivered && n == i as i64, out);
+                    if i + 1 != brs.len() {
+                        out.push(delivered);
+                    }
+                }
+                if let Some((_, e)) = els {
+                    out.push(delivered);
+                    flatten_status(e, delivered && (n < 0 || n >= brs.len() as i64), out);
+                }
+                out.push(delivered);
+            }
+        }
+    }
+}
+
 fn render(fl: &[Flat], redefine: bool) -> String {
+    render_full(fl, None, redefine, &mut vec![])
+}
+
+/// `status` = `Some(delivered flag per token)` switches the scoped alias histories on (`condS`):
+/// dynamic operations are executed where the text is delivered, and every conditional token
+/// and sprinkled name is written according to the meanings current at that point.
+fn render_full(fl: &[Flat], status: Option<&[bool]>, redefine: bool, tags: &mut Vec<String>) -> String {
     let mut s = String::from(PREAMBLE);
+    let scoped = status.is_some();
+    let mut dy = DynState::new();
+    if scoped {
+        s.push_str(DYN_PREAMBLE);
+    }
     s.push_str(&active_preamble());
     if redefine {
         s.push_str(REDEFINE);
     }
-    let name = |base: &str, al: i64, forced: bool| -> String {
-        if al >= 2 {
+    // how a conditional token of primitive `base` is written, given the current meanings
+    fn name(base: &str, al: i64, forced: bool, redefine: bool, scoped: bool, dy: &DynState, pos: usize, tags: &mut Vec<String>) -> String {
+        let prim = PRIMS.iter().position(|p| *p == base).expect("primitive") as i64;
+        if al >= 4 && scoped {
+            // through whichever dynamic name currently carries this meaning
+            let cands: Vec<usize> = (0..DYN.len()).filter(|j| dy.cur[*j] == prim).collect();
+            if !cands.is_empty() {
+                // prefer names other than the primitive's own (those carry the class by default)
+                let other: Vec<usize> = cands.iter().copied().filter(|j| *j < 5 || DYN[*j].1 != prim).collect();
+                let pool = if !other.is_empty() && pos % 4 != 0 { &other } else { &cands };
+                let j = pool[pos % pool.len()];
+                tags.push(format!("scoped:conditional written through a dynamic {}", if j >= 5 { "primitive name" } else if j >= 3 { "active character" } else { "control sequence" }));
+                if dy.saves.iter().any(|l| l.iter().any(|(i, _)| *i == j)) {
+                    tags.push("scoped:… whose meaning is local to an open group".into());
+                }
+                return DynState::name_src(j).trim_end().to_string();
+            }
+            tags.push("scoped:no dynamic name carries the class (static alias used)".into());
+            return format!("\\X{base}");
+        }
+        if al == 2 || al == 3 {
             // alias flag 2 / 3: the active character of set A / B that was \let to the primitive
             let (_, a, b) = ACTIVE.iter().find(|(p, _, _)| *p == base).expect("primitive");
-            (if al == 2 { *a } else { *b }).to_string()
-        } else if al != 0 || (forced && redefine) {
+            return (if al == 2 { *a } else { *b }).to_string();
+        }
+        // is the primitive's own name currently something else?
+        let own_lost = scoped && DYN.iter().enumerate().any(|(j, (n, _))| *n == format!("\\{base}") && dy.cur[j] != prim);
+        if own_lost {
+            tags.push("scoped:primitive name currently reassigned (static alias used)".into());
+        }
+        if al != 0 || (forced && redefine) || own_lost {
             format!("\\X{base}")
         } else {
             format!("\\{base}")
         }
-    };
-    for f in fl {
+    }
+    for (i, f) in fl.iter().enumerate() {
+        let delivered = status.map(|st| st[i]).unwrap_or(false);
         match f {
             Flat::Plain(p) => match *p {
-                -1 => s.push('{'),
-                -2 => s.push('}'),
+                -1 => {
+                    s.push('{');
+                    if delivered {
+                        dy.begin();
+                    }
+                }
+                -2 => {
+                    s.push('}');
+                    if delivered {
+                        dy.end();
+                    }
+                }
+                n if n >= DYN_BASE => {
+                    if !scoped {
+                        continue; // inert outside `condS`
+                    }
+                    let sprinkle = |j: usize, dy: &DynState, s: &mut String, tags: &mut Vec<String>| {
+                        // a name that currently carries NO conditional class
+                        if dy.cur[j] >= 8 {
+                            s.push_str(&DynState::name_src(j));
+                            let had = if dy.ever_class[j] || DYN[j].1 < 8 { "carried a class earlier" } else { "never carried a class" };
+                            tags.push(format!("scoped:classless name ({had}) in {} text", if delivered { "selected" } else { "skipped" }));
+                        }
+                    };
+                    if n >= DYN_SPRINKLE {
+                        sprinkle(((n - DYN_SPRINKLE) % 10) as usize, &dy, &mut s, tags);
+                    } else {
+                        let (j, m, global) = dyn_dec(n);
+                        if !delivered {
+                            // not executed here: only the name is written (if it has no class now)
+                            sprinkle(j, &dy, &mut s, tags);
+                        } else {
+                            let target = DynState::name_src(j).trim_end().to_string();
+                            if global {
+                                s.push_str("\\global ");
+                            }
+                            match m {
+                                M_MACRO => s.push_str(&format!("\\def{target}{{}}")),
+                                M_RELAX => s.push_str(&format!("\\let{target}=\\relax ")),
+                                m => s.push_str(&format!("\\let{target}=\\X{} ", PRIMS[m as usize])),
+                            }
+                            let from = dy.cur[j];
+                            dy.assign(j, m, global);
+                            let kind = |m: i64| if m < 5 { "if" } else if m < 8 { "else/or/fi" } else if m == M_MACRO { "macro" } else { "relax" };
+                            tags.push(format!("scoped:op {} {}→{}", if global { "global" } else { "local" }, kind(from), kind(m)));
+                            tags.push(format!("scoped:op at group level {}", dy.saves.len().min(4)));
+                            tags.push(format!("scoped:op on a {}", if j >= 5 { "primitive name" } else if j >= 3 { "active character" } else { "control sequence" }));
+                        }
+                    }
+                }
                 n => s.push_str(plain_src(n, redefine).0),
             },
             Flat::Else(a) => {
-                s.push_str(&name("else", *a, true));
+                s.push_str(&name("else", *a, true, redefine, scoped, &dy, i, tags));
                 s.push(' ');
             }
             Flat::Or(a) => {
-                s.push_str(&name("or", *a, true));
+                s.push_str(&name("or", *a, true, redefine, scoped, &dy, i, tags));
                 s.push(' ');
             }
             Flat::Fi(a) => {
-                s.push_str(&name("fi", *a, true));
+                s.push_str(&name("fi", *a, true, redefine, scoped, &dy, i, tags));
                 s.push(' ');
             }
             Flat::If(t) => {
                 let reg = t.sty != 0 || t.ops.iter().any(|n| *n == I32_MIN);
                 match t.kind {
                     0 => {
-                        s.push_str(&name("iftrue", t.al, true));
+                        s.push_str(&name("iftrue", t.al, true, redefine, scoped, &dy, i, tags));
                         s.push(' ');
                     }
                     1 => {
-                        s.push_str(&name("iffalse", t.al, false));
+                        s.push_str(&name("iffalse", t.al, false, redefine, scoped, &dy, i, tags));
                         s.push(' ');
                     }
                     2 | 4 => {
                         let (base, forced) = if t.kind == 2 { ("ifodd", false) } else { ("ifcase", true) };
                         if reg {
                             set_reg(1, t.ops[0], &mut s);
-                            s.push_str(&name(base, t.al, forced));
+                            s.push_str(&name(base, t.al, forced, redefine, scoped, &dy, i, tags));
                             s.push_str("\\count1 ");
                         } else {
-                            s.push_str(&name(base, t.al, forced));
+                            s.push_str(&name(base, t.al, forced, redefine, scoped, &dy, i, tags));
                             s.push_str(&format!(" {} ", t.ops[0]));
                         }
                     }
@@ -465,10 +679,10 @@ fn render(fl: &[Flat], redefine: bool) -> String {
                         if reg {
                             set_reg(1, t.ops[0], &mut s);
                             set_reg(2, t.ops[2], &mut s);
-                            s.push_str(&name("ifnum", t.al, false));
+                            s.push_str(&name("ifnum", t.al, false, redefine, scoped, &dy, i, tags));
                             s.push_str(&format!("\\count1 {rel}\\count2 "));
                         } else {
-                            s.push_str(&name("ifnum", t.al, false));
+                            s.push_str(&name("ifnum", t.al, false, redefine, scoped, &dy, i, tags));
                             s.push_str(&format!(" {}{rel}{} ", t.ops[0], t.ops[2]));
                         }
                     }
@@ -494,6 +708,7 @@ fn expected_text(codes: &[i64], redefine: bool) -> Result<String, String> {
                 }
                 depth -= 1;
             }
+            n if n >= DYN_BASE => {} // scoped alias operations / sprinkled names print nothing
             n if n >= 0 => s.push_str(plain_src(n, redefine).1),
             _ => return Err("driver-printed-a-non-plain-token".into()),
         }
@@ -546,6 +761,8 @@ fn test_holds(t: &TestR) -> bool {
 struct Gen<'a> {
     rng: &'a mut Rng,
     budget: i64,
+    /// `condS`: emit scoped alias operations, sprinkled names and dynamic alias flags
+    scoped: bool,
 }
 
 const OPERANDS: &[i64] = &[I32_MIN, I32_MIN + 1, -3, -2, -1, 0, 1, 2, 3, 4, 5, 7, 100, 255, I32_MAX - 1, I32_MAX];
@@ -561,6 +778,9 @@ impl<'a> Gen<'a> {
     /// How a conditional token is written: 0 primitive name, 1 control-sequence alias,
     /// 2 / 3 active-character alias (two sets of characters).
     fn flag(&mut self) -> i64 {
+        if self.scoped && self.rng.chance(1, 2) {
+            return 4; // through a name that currently carries the class (`condS`)
+        }
         match self.rng.below(6) {
             0..=2 => 0,
             3 => 1,
@@ -580,6 +800,42 @@ impl<'a> Gen<'a> {
             _ => vec![],
         };
         TestR { kind, al: self.flag(), sty: self.rng.chance(1, 4) as i64, ops }
+    }
+    /// A scoped alias operation (any name, any meaning, local or global).
+    fn dyn_op(&mut self) -> i64 {
+        let j = self.rng.below(DYN.len() as u64) as i64;
+        let m = match self.rng.below(10) {
+            0..=5 => self.rng.below(8) as i64,
+            6 | 7 => M_MACRO,
+            _ => M_RELAX,
+        };
+        dyn_op(j, m, self.rng.chance(1, 4))
+    }
+    /// Alias history in front of the tree: groups, local and global reassignments.
+    fn scoped_prefix(&mut self) -> Vec<Item> {
+        let mut v = vec![];
+        let mut open = 0;
+        for _ in 0..2 + self.rng.below(8) {
+            match self.rng.below(6) {
+                0 | 1 => {
+                    v.push(Item::Plain(-1));
+                    open += 1;
+                }
+                2 if open > 0 => {
+                    v.push(Item::Plain(-2));
+                    open -= 1;
+                }
+                _ => v.push(Item::Plain(self.dyn_op())),
+            }
+        }
+        // half of the time the groups are closed before the tree (meanings are restored), otherwise
+        // the tree runs inside them (closed by the caller at the very end)
+        if self.rng.chance(1, 2) {
+            for _ in 0..open {
+                v.push(Item::Plain(-2));
+            }
+        }
+        v
     }
     fn plain(&mut self) -> i64 {
         self.rng.below(N_PLAIN as u64) as i64
@@ -601,8 +857,12 @@ impl<'a> Gen<'a> {
                 let d = if forced_cond { depth - 1 } else { self.rng.below(depth as u64) as u32 };
                 forced_cond = false;
                 v.push(self.cond(d, delivered));
+            } else if self.scoped && self.rng.chance(1, 3) {
+                // operations only make sense where they are executed; skipped text gets names
+                let code = if delivered && self.rng.chance(2, 3) { self.dyn_op() } else { DYN_SPRINKLE + self.rng.below(DYN.len() as u64) as i64 };
+                v.push(Item::Plain(code));
             } else {
-                match self.rng.below(8) {
+                match self.rng.below(if self.scoped && delivered { 5 } else { 8 }) {
                     0 => {
                         v.push(Item::Plain(-1));
                         if delivered {
@@ -752,7 +1012,7 @@ fn active_tags(items: &[Item], delivered: bool, depth: u32, out: &mut CaseOutcom
     };
     for it in items {
         match it {
-            Item::Plain(p) if (22..25).contains(&p.rem_euclid(N_PLAIN)) && *p >= 0 => {
+            Item::Plain(p) if (22..25).contains(&p.rem_euclid(N_PLAIN)) && *p >= 0 && *p < DYN_BASE => {
                 out.tag(format!("active:non-conditional active char in {place} text"))
             }
             Item::Plain(_) => {}
@@ -1318,7 +1578,7 @@ impl C07 {
         }
     }
 
-    fn run_cond(&mut self, redefine: bool, ints: &[i64], drv: &mut Driver, out: &mut CaseOutcome) {
+    fn run_cond(&mut self, redefine: bool, scoped: bool, ints: &[i64], drv: &mut Driver, out: &mut CaseOutcome) {
         let items = dec_text(&mut Cur(ints));
         let mut fl = vec![];
         flatten(&items, &mut fl);
@@ -1377,7 +1637,20 @@ impl C07 {
         if matches!(s, Real::Err(_)) {
             out.tag("cond:selected-text-has-unbalanced-braces");
         }
-        let src = render(&fl, redefine);
+        let src = if scoped {
+            let mut status = vec![];
+            flatten_status(&items, true, &mut status);
+            assert_eq!(status.len(), fl.len());
+            let mut tags = vec![];
+            let src = render_full(&fl, Some(&status), false, &mut tags);
+            out.tag("cond:scoped-alias-history");
+            for t in tags {
+                out.tag(t);
+            }
+            src
+        } else {
+            render(&fl, redefine)
+        };
         let (i, title) = run_tex(&src, false);
         match &i {
             Real::Ok { .. } => out.tag("cond:ok"),
@@ -1588,6 +1861,7 @@ impl Property for C07 {
          (braces paired only in text the specification selects; arbitrary in skipped text), half of them with the primitive names \\else \\fi \\or \\iftrue \\ifcase redefined as macros; \
          tok: every token list of length <= 3 (quick) / 4 (thorough) over {iftrue,iffalse,ifcase 0/1/2,else,or,fi,a,{,}} and random mutations (drop/insert/swap) of flattened trees; \
          every conditional token is written as the primitive, a control-sequence \\let alias or one of two active characters (\\catcode 13, 16 in all) \\let to it, in selected and skipped text at every depth; three more active characters (\\let to \\fi then redefined as a macro, \\let to \\relax, \\let to a letter) are plain tokens that must not count; \
+         condS (half as many again): the same trees with scoped alias histories — before the tree and inside selected text, random `{`, `}`, local and \\global \\let/\\def that move ten names (3 control sequences, 2 active characters, the primitive names \\else \\fi \\or \\iftrue \\ifodd) between the eight conditional meanings, an empty macro and \\relax; the harness tracks the current meaning of every name with TeX's grouping, writes conditional tokens through names that currently carry the meaning (static aliases when the primitive's own name is reassigned) and sprinkles names that currently carry no class into selected and skipped text; \
          xa: random streams of 0..24 tokens over \\expandafter, two \\let aliases of it, \\noexpand, 0..4 macros with 0..2 parameters (terminating by construction), \\iftrue, \\fi, \\relax, letters; both EOF positions; \
          xah (3/5 of the xa budget): the same after a random VM history of 1..10 operations (\\toks assignments and overwrites of 0..200 tokens, local and \\global, groups that save/restore them, \\the\\toks, macro calls without/with one braced/with two arguments, \\def with long bodies, nested conditionals, \\expandafter chains) whose own output the harness predicts. \
          Non-trivial = tree depth >= 1 (cond), at least one conditional token (tok), at least one \\expandafter or \\noexpand (xa); distinct = distinct case string."
@@ -1731,17 +2005,36 @@ impl Property for C07 {
         let mut r = rng.fork();
         for i in 0..n_cond {
             let depth = (i % 7) as u32;
-            let mut g = Gen { rng: &mut r, budget: 60 + 40 * depth as i64 };
+            let mut g = Gen { rng: &mut r, budget: 60 + 40 * depth as i64, scoped: false };
             let items = g.text(depth, true);
             let mut e = vec![];
             enc_text(&items, &mut e);
             v.push(format!("{} {}", if r.chance(1, 2) { "condR" } else { "cond" }, join(&e)));
         }
+        // condS: the same trees with scoped alias histories
+        let mut r = rng.fork();
+        for i in 0..n_cond / 2 {
+            let depth = (i % 7) as u32;
+            let mut g = Gen { rng: &mut r, budget: 60 + 40 * depth as i64, scoped: true };
+            let mut items = g.scoped_prefix();
+            items.extend(g.text(depth, true));
+            let open = items.iter().fold(0i64, |o, it| match it {
+                Item::Plain(-1) => o + 1,
+                Item::Plain(-2) => o - 1,
+                _ => o,
+            });
+            for _ in 0..open.max(0) {
+                items.push(Item::Plain(-2));
+            }
+            let mut e = vec![];
+            enc_text(&items, &mut e);
+            v.push(format!("condS {}", join(&e)));
+        }
         // tok: mutated trees
         let mut r = rng.fork();
         for _ in 0..n_tok {
             let depth = r.below(4) as u32;
-            let mut g = Gen { rng: &mut r, budget: 25 };
+            let mut g = Gen { rng: &mut r, budget: 25, scoped: false };
             let items = g.text(depth, true);
             let mut fl = vec![];
             flatten(&items, &mut fl);
@@ -1786,7 +2079,8 @@ impl Property for C07 {
         let mut out = CaseOutcome::default();
         let (cmd, rest) = case.split_once(' ').unwrap_or((case, ""));
         match cmd {
-            "cond" | "condR" => self.run_cond(cmd == "condR", &parse_i64s(rest), drv, &mut out),
+            "cond" | "condR" => self.run_cond(cmd == "condR", false, &parse_i64s(rest), drv, &mut out),
+            "condS" => self.run_cond(false, true, &parse_i64s(rest), drv, &mut out),
             "tok" | "tokR" => self.run_tok(cmd == "tokR", &parse_i64s(rest), drv, &mut out),
             "xa" => self.run_xa(&parse_i64s(rest), &[], drv, &mut out),
             "xah" => {
@@ -1808,7 +2102,7 @@ impl Property for C07 {
         let (cmd, rest) = case.split_once(' ').unwrap_or((case, ""));
         let mut c = vec![];
         match cmd {
-            "cond" | "condR" => {
+            "cond" | "condR" | "condS" => {
                 let items = dec_text(&mut Cur(&parse_i64s(rest)));
                 for t in shrink_items(&items) {
                     let mut e = vec![];
